@@ -162,6 +162,18 @@ Definition process_ret_type (t : ty) : option (list mtype) :=
       Some (filter (fun m => match m with MX87UP => false | _ => true end) l)
   end.
 
+(* How the pieces are moved (target_add_ret_ops in a callee, target_gen_post_call_res_code in a caller): piece i
+   of process_ret_type is loaded from / stored to  disp + 8 * i  of the object with a move of its MIR type
+   (tp_mov (type), memory operand of that type).  [mbytes] = the bytes such a move transfers; for MIR_T_LD the 16
+   bytes of the long double object (an x87 store writes its 10 value bytes, the 6 others are padding of the
+   long double itself). *)
+Definition mbytes (m : mtype) : Z :=
+  match m with MI8 => 1 | MI16 => 2 | MI32 | MF => 4 | MI64 | MD => 8 | MLD => 16 | MX87UP => 0 end.
+
+(* (byte offset, MIR type) of every access; None = hidden pointer *)
+Definition ret_pieces (t : ty) : option (list (Z * mtype)) :=
+  option_map (fun l => combine (map (fun i => 8 * Z.of_nat i) (seq 0 (length l))) l) (process_ret_type t).
+
 (* process_aggregate_arg + get_blk_type: the MIR_T_BLK + k a struct/union argument is passed as,
    given the integer / SSE registers already used; returns (k, n_iregs', n_fregs') *)
 Definition is_int_mtype (m : mtype) : bool :=
